@@ -36,13 +36,13 @@ Definition mem_clause (c : clause) (s : list clause) : bool := existsb (clause_e
 (* ---- truth-table semantics of a clause list over the features 1..n ---- *)
 Definition clause_holds (s : asg) (c : clause) : bool := existsb (lit_true s) c.
 Definition cs_sat (s : asg) (cs : list clause) : bool := forallb (clause_holds s) cs.
-Definition cnf_models (cs : list clause) (n : nat) : list cfg :=
+Definition cs_models (cs : list clause) (n : nat) : list cfg :=
   filter (fun m => cs_sat (asg_of m) cs) (all_cfgs n).
 Definition cnf_satisfiable (cs : list clause) (n : nat) : bool :=
-  match cnf_models cs n with [] => false | _ => true end.
+  match cs_models cs n with [] => false | _ => true end.
 (* number of models that contain all literals of A: what `count a A` has to answer *)
 Definition cnf_count (cs : list clause) (n : nat) (A : cfg) : Z :=
-  Z.of_nat (List.length (filter (contains_all A) (cnf_models cs n))).
+  Z.of_nat (List.length (filter (contains_all A) (cs_models cs n))).
 
 (* ---- the text write_cnf_to_file prints (persisting.rs) ---- *)
 Definition dec_of_nat (n : nat) : string := NilEmpty.string_of_uint (Nat.to_uint n).
@@ -115,15 +115,15 @@ Definition m_undo (m : mstate) : mstate :=
 Definition m_save (m : mstate) : list string := print_cnf (m_n m) (canon_set (m_cs m)).
 
 (* commands of a history *)
-Inductive cmd :=
+Inductive cc_cmd :=
 | CUpdate (t : option Z) (add rmv : list (list Z))   (* clause-update [t N] [add c1 0 c2 ..] [rmv ..] *)
 | CUndo                                              (* undo-update *)
 | CSave.                                             (* save-cnf p <path> *)
 
-Definition m_step (m : mstate) (c : cmd) : mstate :=
+Definition m_step (m : mstate) (c : cc_cmd) : mstate :=
   match c with
   | CUpdate t add rmv => m_update m t add rmv
   | CUndo => m_undo m
   | CSave => m
   end.
-Definition m_run (m : mstate) (cs : list cmd) : mstate := fold_left m_step cs m.
+Definition m_run (m : mstate) (cs : list cc_cmd) : mstate := fold_left m_step cs m.
